@@ -28,9 +28,14 @@ ALL_MERGES_2 = [tuple(1 if i in c else 0 for i in range(10))
 # ------------------------------------------------------------------------------------------
 # jobs
 # ------------------------------------------------------------------------------------------
-def gen_job(rng, cls, density=0.25):
-    """One worker's workload: a scene and its own per-call parameters."""
-    if cls == 'refused':
+def gen_job(rng, cls, density=0.25, twin_of=None):
+    """One worker's workload: a scene and its own per-call parameters. With twin_of, the scene
+    has the same shape (ceilometers, time stamps, hit types, row labels) as that job's scene but
+    other heights: distinct data that collide wherever state is keyed by shape."""
+    if twin_of is not None:
+        base_scene = dict(twin_of, prms=twin_of.get('class_prms', {}))
+        scene = scenes.twin_scene(rng, base_scene)
+    elif cls == 'refused':
         scene = scenes.gen_scene(rng, 'two-far')
         scene['cls'] = 'refused'
         scene['prms'] = {'MIN_SEP_VALS': [150, 1000], 'MIN_SEP_LIMS': [5000, 10000]}
@@ -38,9 +43,11 @@ def gen_job(rng, cls, density=0.25):
         scene = scenes.gen_scene(rng, cls)
     # distinct per-call parameters per worker: the leaves that make the scene class live, plus a
     # seeded assignment over the other leaves (`density` of them; 1.0 = every leaf non-default)
+    scene['class_prms'] = dict(scene.get('prms') or {})
     base = {q: get_path(scene['prms'], q) for q in leaf_paths(scene.get('prms') or {})}
     dflt = _defaults()
-    pool = [q for q in prmspace.PROCESSING_LEAVES if q not in base
+    pool = [q for q in prmspace.PROCESSING_LEAVES + prmspace.discovered_leaves(dflt)
+            if q not in base
             and q not in (('MIN_SEP_VALS',), ('MIN_SEP_LIMS',), ('BASE_LVL_LOOKBACK_PERC',))]
     k = len(pool) if density >= 1.0 else sum(1 for _ in pool if rng.random() < density)
     extra = prmspace.gen_leaf_values(rng, dflt, n_leaves=0, must=rng.sample(pool, k))
@@ -227,6 +234,10 @@ def run_line(seed, out, bump):
     classes += [rng_scene.choice(LINE_CLASSES) for _ in range(n_workers - 1)]
     rng_scene.shuffle(classes)
     jobs = [gen_job(rng_scene, c) for c in classes]
+    if rng_scene.random() < 0.3:
+        jobs[1] = gen_job(rng_scene, None, twin_of=jobs[0])
+        classes[1] = jobs[1]['cls']
+        bump('probe.twin_shape_job_pair')
     dirty = []
     refs = references(jobs, seed, census=Census(), dirty=dirty)
     for scene, ref in zip(jobs, refs):
@@ -291,7 +302,8 @@ def sweep_jobs(seed, dense=True):
     # for every leaf: whatever parameter-derived state leaks from B is then wrong for A
     job_a = gen_job(rng, ca, density=0.1)
     for _ in range(6):
-        job_b = gen_job(rng, cb, density=1.0 if dense else 0.2)
+        job_b = gen_job(rng, cb, density=1.0) if dense else \
+            gen_job(rng, None, density=0.3, twin_of=job_a)
         if scenes.probe(job_b, prms=job_b['prms'])['raised'] in (None, 'AmpycloudError'):
             break
     return [job_a, job_b]
@@ -419,6 +431,10 @@ def run_stage(run, out, bump):
     classes = [rng_scene.choice(['rng-sensitive', 'merge+split', 'split', 'demo-like'])]
     classes += [rng_scene.choice(LINE_CLASSES) for _ in range(n - 1)]
     jobs = [gen_job(rng_scene, c) for c in classes]
+    if run.get('twin'):
+        jobs[1] = gen_job(rng_scene, None, twin_of=jobs[0])
+        classes[1] = jobs[1]['cls']
+        bump('probe.twin_shape_job_pair')
     try:
         trajs = [stage_trajectory(s, i) for i, s in enumerate(jobs)]
     except Exception:
@@ -466,7 +482,7 @@ def plan(tier, master):
     for p in range(n_pairs):
         for lo in range(0, 252, 21):
             runs.append({'kind': 'stage', 'n_chunks': 2, 'lo': lo, 'hi': lo + 21,
-                         'seed': kernel.run_seed(PROP, master, f'pair-{p}')})
+                         'seed': kernel.run_seed(PROP, master, f'pair-{p}'), 'twin': p % 2 == 1})
     n3 = 0 if tier == 'quick' else 5000
     for k in range(0, n3, 25):
         runs.append({'kind': 'stage', 'n_chunks': 3, 'lo': k, 'hi': k + 25,
